@@ -42,7 +42,7 @@ func genCase(t *rapid.T) Case {
 	doc, info := gen.Spec(t, gen.SpecOpts{Rich: rich})
 	c := Case{Rich: rich && info.UsedSharedParam && info.UsedSharedResp && len(info.AllOfChildren) > 0}
 	n := rapid.SampledFrom([]int{0, 1, 1, 1, 2}).Draw(t, "nedits")
-	shaped := false
+	shaped, wroteResponseSchema := false, false
 	for i, tries := 0, 0; i < n && tries < 8; tries++ {
 		name := gen.PickUniform(t, append([]string{"requiredSatisfiedByAdditionalProperties"}, gen.RuleEdits...), "edit")
 		if name == "circularAncestry" && len(c.Edits) > 0 {
@@ -51,6 +51,9 @@ func genCase(t *rapid.T) Case {
 		if pathShape[name] && shaped {
 			continue // two edits that both reshape path templates can cancel each other
 		}
+		if responseSchema[name] && wroteResponseSchema {
+			continue // both replace the schema of an operation's first inline response: the second would erase the first
+		}
 		if name == "missingPaths" && len(c.Edits) > 0 {
 			continue // removing all paths would erase what an earlier edit broke
 		}
@@ -58,6 +61,7 @@ func genCase(t *rapid.T) Case {
 			c.Edits = append(c.Edits, name)
 			i++
 			shaped = shaped || pathShape[name]
+			wroteResponseSchema = wroteResponseSchema || responseSchema[name]
 			if name == "circularAncestry" || name == "missingPaths" {
 				break
 			}
@@ -66,6 +70,8 @@ func genCase(t *rapid.T) Case {
 	c.Doc = gen.Text(doc)
 	return c
 }
+
+var responseSchema = map[string]bool{"schemaArrayNoItems": true, "invalidPatternItems": true}
 
 var pathShape = map[string]bool{"pathParamNotRequired": true, "overlappingPaths3": true, "placeholderRepeatedAdjacent": true, "placeholderRepeatedApart": true, "overlappingPaths": true, "placeholderWithoutParam": true, "pathParamNotInTemplate": true}
 
